@@ -1,0 +1,28 @@
+//go:build verif
+// +build verif
+
+package server
+
+// Accessors for the verification harness (build tag `verif` only).
+
+import (
+	"sync/atomic"
+
+	"github.com/youzan/ZanRedisDB/common"
+)
+
+// VerifSetClusterInfo installs a cluster-info source on a server that runs without a
+// placement driver (what server_test.go does with its fakeClusterInfo), so that a replica
+// that needs a snapshot can find the peers' backup directories.
+func (s *Server) VerifSetClusterInfo(ci common.IClusterInfo) {
+	s.nsMgr.SetIClusterInfo(ci)
+}
+
+// VerifAllowStaleRead switches follower reads on or off (same switch as POST /staleread).
+func VerifAllowStaleRead(on bool) {
+	if on {
+		atomic.StoreInt32(&allowStaleRead, 1)
+	} else {
+		atomic.StoreInt32(&allowStaleRead, 0)
+	}
+}
